@@ -10,8 +10,9 @@
 #define NMAXR 50
 #define NYMAX 4
 #define NZ 8
-static const int SHAPES[19][2] = {{4, 1}, {4, 2}, {5, 1}, {5, 2}, {5, 3}, {8, 1}, {8, 2}, {8, 3}, {8, 6}, {20, 1}, {20, 2}, {20, 3}, {20, 6}, {20, 10},
-                                  {50, 1}, {50, 2}, {50, 3}, {50, 6}, {50, 10}};
+static const int SHAPES[23][2] = {{4, 1}, {4, 2}, {5, 1}, {5, 2}, {5, 3}, {8, 1}, {8, 2}, {8, 3}, {8, 6}, {20, 1}, {20, 2}, {20, 3}, {20, 6}, {20, 10},
+                                  {50, 1}, {50, 2}, {50, 3}, {50, 6}, {50, 10},
+                                  {7, 1}, {7, 3}, {11, 2}, {23, 6}};   /* object counts of every residue mod 4 (unrolled kernels) */
 static const double KAPPA[3] = {1, 1e2, 1e4};
 static const double NOISE[3] = {0, 0.1, 10};
 static const double AFF[6][2] = {{-2, 0}, {1, 5}, {0.01, -3}, {1e3, 7}, {1e6, 0}, {1, 1e7}};   /* the last two: large response units / large offset against the spread */
@@ -85,7 +86,7 @@ static void reuse_call(const char *cls, const char *how, const char *ctx, struct
 }
 
 static void body(void) {
-  int si = vx_choose("shape", 19);
+  int si = vx_choose("shape", 23);
   int kap = vx_choose("kappa", 3);
   int ny = 1 + vx_choose("ny-1", 4);
   int noise = vx_choose("noise", 3);
@@ -140,6 +141,7 @@ static void body(void) {
   vx_require(okref);
 
   double w_sum = 0, w_orth = 0, w_coef = 0, w_rec = 0, w_res = 0, w_recal = 0, w_r2 = 0, w_r2lo = 0, w_sdec = 0, w_ols = 0, w_resn = 0; int j_orth = 0;
+  double r2ref[NYMAX], r2all[NYMAX], sdref[NYMAX];   /* reference 1-RSS/TSS, its allowance, reference sqrt(RSS/n) of response r */
   double fe[NYMAX];                          /* forward-error allowance of the coefficient vector of response r (2-norm) */
   for (int r = 0; r < ny; r++) {
     ld bref[PMAX + 1], bn = 0; for (int j = 0; j <= p; j++) { bref[j] = RM(Bref, j, r); bn += bref[j] * bref[j]; } bn = sqrtl(bn);
@@ -168,7 +170,8 @@ static void body(void) {
     { double ref = (double)(1 - rss / tss), allow = 16 * DEPS * n * (1 + (double)(rss / tss)) * (1 + sqrt((double)(mean * mean * n / tss))), d = fabs(m->r2y_model->data[r] - ref) / allow; if (!(d <= w_r2)) w_r2 = d;
       double lo = -tr * (double)((F.yn[r] + dF * F.bn[r]) * (F.yn[r] + dF * F.bn[r]) / tss) - allow, hi = 1 + allow;
       double dl = m->r2y_model->data[r] < lo ? (lo - m->r2y_model->data[r]) / allow : m->r2y_model->data[r] > hi ? (m->r2y_model->data[r] - hi) / allow : 0; if (!(dl <= w_r2lo)) w_r2lo = dl;
-      double sref = (double)sqrtl(rss / n), ds = fabs(m->sdec->data[r] - sref) / (16 * DEPS * n * sref + 1e-300); if (!(ds <= w_sdec)) w_sdec = ds; }
+      double sref = (double)sqrtl(rss / n), ds = fabs(m->sdec->data[r] - sref) / (16 * DEPS * n * sref + 1e-300); if (!(ds <= w_sdec)) w_sdec = ds;
+      r2ref[r] = ref; r2all[r] = allow; sdref[r] = sref; }
     /* the documented mechanism observed directly: OrdinaryLeastSquares on [1 X] returns the same minimiser */
     { matrix *dm = hm_from_rm(D); dvector *yv = hv_new(n, NULL), *co; for (int i = 0; i < n; i++) yv->data[i] = Y_[i * ny + r]; initDVector(&co);
       OrdinaryLeastSquares(dm, yv, co); vx_transition(1);
@@ -220,6 +223,21 @@ static void body(void) {
     MLRPredictY(F.mx, F.my, m, fy, fr, f2, fs); vx_transition(1);
     int fresh_ok = m_same(fy, pX) && (int)fr->row == n && (int)fr->col == ny && (int)f2->size == ny && (int)fs->size == ny;
     vx_check(fresh_ok, KEY("predict", "MLRPredictY", "train,with-my"), "prediction of the training objects with the known responses passed differs from the one without (or residuals %zux%zu, r2y %zu, sdep %zu entries; n=%d ny=%d)", fr->row, fr->col, f2->size, fs->size, n, ny);
+    /* ---- the statistics MLRPredictY itself reports for (training X, training Y), with every subset of its optional outputs
+     * (residual matrix, r2 vector, sdep vector) requested: the same 1 - RSS/TSS and sqrt(RSS/n), the same predictions */
+    if (fresh_ok) for (int mask = 0; mask < 8; mask++) {
+      matrix *oy, *ores; dvector *o2, *os; initMatrix(&oy); initMatrix(&ores); initDVector(&o2); initDVector(&os);
+      MLRPredictY(F.mx, F.my, m, oy, (mask & 1) ? ores : NULL, (mask & 2) ? o2 : NULL, (mask & 4) ? os : NULL); vx_transition(1);
+      int ok = m_same(oy, fy) && (!(mask & 1) || m_same(ores, fr)) && (!(mask & 2) || (int)o2->size == ny) && (!(mask & 4) || (int)os->size == ny);
+      double w2o = 0, wso = 0;
+      for (int r = 0; ok && r < ny; r++) {
+        if (mask & 2) { double d = fabs(o2->data[r] - r2ref[r]) / r2all[r]; if (!(d <= w2o)) w2o = d; }
+        if (mask & 4) { double d = fabs(os->data[r] - sdref[r]) / (16 * DEPS * n * sdref[r] + 1e-300); if (!(d <= wso)) wso = d; }
+      }
+      char oc[48]; snprintf(oc, sizeof oc, "outputs=%s%s%s", (mask & 1) ? "res," : "", (mask & 2) ? "r2," : "", (mask & 4) ? "sdep" : "");
+      vx_check(ok && w2o <= 1 && wso <= 1, KEY("stats", "MLRPredictY", oc), "MLRPredictY(training X, training Y) with the optional outputs %s requested: predictions/residuals differ from the call with all outputs, or r2 differs from 1 - RSS/TSS by %g allowances, sdep from sqrt(RSS/n) by %g allowances (n=%d p=%d ny=%d)", oc, w2o, wso, n, p, ny);
+      DelMatrix(&oy); DelMatrix(&ores); DelDVector(&o2); DelDVector(&os);
+    }
     if (fresh_ok) {
       wy = m_dup(fy); wr = m_dup(fr); for (int r = 0; r < ny; r++) { w2[r] = f2->data[r]; ws[r] = fs->data[r]; }
       reuse_call("same-shape", "hold an earlier result of the same shape", ctx, &F, fy, fr, f2, fs, wy, wr, w2, ws, ny);
@@ -308,7 +326,7 @@ static void body(void) {
 
 int main(int argc, char **argv) {
   vg_seed(getenv("VERIF_SEED") ? atol(getenv("VERIF_SEED")) : 0);
-  vx_describe("alphabet", "n in {4,5,8,20,50} x p in {1,2,3,6,10} with n >= p+2 (19 shapes) x spectral kappa {1,1e2,1e4} x ny 1..4 x noise {0,0.1,10}*sd(signal) x 2 [thorough 24] families x "
+  vx_describe("alphabet", "n in {4,5,7,8,11,20,23,50} (every residue mod 4) x p in {1,2,3,6,10} with n >= p+2 (23 shapes) x spectral kappa {1,1e2,1e4} x ny 1..4 x noise {0,0.1,10}*sd(signal) x 2 [thorough 24] families x "
               "column modifiers {offsets +-(1+0.5j), none, 1e3 offset + x50 column, x1e-3}; per execution: 8 unseen objects, response maps (-2,0),(1,5),(0.01,-3),(1e3,7), predictor re-mixings X->XA with kappa(A) in {1,3,10,10}");
   vx_describe("oracle", "allowance tol_rel = 1e3*eps*(n+p+1)*kappa_d^2 (kappa_d = 2-norm condition number of [1 X] by long-double Jacobi SVD; normal equations + explicit inverse), judged while tol_rel <= 2e-3: "
               "|D_j' residuals| <= tol_rel |D_j| (|y| + |D||b|); |b - b_QR| and (noise 0) |b - b_generating| <= tol_rel (|b| + |y|/|D|); recalculated_y, residuals, MLRPredictY vs b0 + x b at rounding level; "
